@@ -37,6 +37,14 @@ structure Entry where
   writes : List String         -- every field it writes anywhere in its body
   deriving DecidableEq, Repr
 
+/-- what one function does with a pointer-typed field, in source order: "read", "write-literal"
+    (`&T{…}`), "write-new", "write-nil", "write-addr", "write-other" -/
+structure PtrUse where
+  field : String
+  func : String
+  events : List String
+  deriving DecidableEq, Repr
+
 structure StructTable where
   type : String
   fields : List (String × String)      -- name, Go type, in declaration order
@@ -48,6 +56,7 @@ structure StructTable where
   ctorWrites : List Write              -- keys of composite literals of the type
   otherWrites : List Write             -- every other write, outside reset()
   entries : List Entry
+  ptrUses : List PtrUse                -- reads/writes of the pointer-typed fields, per function
   deriving Repr
 
 def StructTable.fieldNames (t : StructTable) : List String := t.fields.map (·.1)
@@ -63,6 +72,9 @@ inductive Class
                            -- len/append/range are used, so nil (fresh) and empty (reused) agree
   | config                 -- written only by option functions and constructors
   | entry                  -- assigned/initialised by every entry point right after reset()
+  | fresh                  -- pointer field: every function that touches it first assigns it the address of
+                           -- a new composite literal and never assigns anything else, so no object
+                           -- reachable through it survives from an earlier use
   | scratch (why : String) -- not reset; always written before it is read after a reset (hand-justified)
   | defect (id : String)   -- not reset and NOT always written before read: a recorded finding
   deriving DecidableEq, Repr
@@ -128,6 +140,11 @@ def fieldOk (t : StructTable) (e : Expect) (f : String) : Bool :=
     | some .assign => t.entries.all fun en => !en.resetFirst || en.assigned.contains f
     | some (.call m) => t.entries.all fun en => !en.resetFirst || en.fieldCalls.contains (f ++ "." ++ m)
     | none => false
+  | some .fresh =>
+    (t.resetRhs f).isNone &&
+    (t.ptrUses.any fun u => u.field == f) &&
+    (t.ptrUses.all fun u => u.field != f ||
+      (u.events.head? == some "write-literal" && u.events.all fun ev => ev == "write-literal" || ev == "read"))
   | some (.scratch _) => (t.resetRhs f).isNone
   | some (.defect _) => true   -- recorded finding: tolerated by `coversExcept` only, never by `covers`
 
@@ -139,6 +156,16 @@ def covers (t : StructTable) (e : Expect) : Bool :=
 /-- the same, tolerating exactly the recorded defects -/
 def coversExcept (t : StructTable) (e : Expect) (open_ : List String) : Bool :=
   t.fieldNames.all fun f => fieldOk t e f && (((e.classOf f).map Class.isCovered).getD false || open_.contains f)
+
+/-- State reachable through pointer fields must not outlive a call: every field of pointer type is
+    re-pointed by reset(), (re-)initialised by every entry point, or fresh at every use — never
+    plain scratch or configuration. -/
+def pointerFieldsOk (t : StructTable) (e : Expect) : Bool :=
+  t.fields.all fun (f, ty) =>
+    !ty.startsWith "*" ||
+    (match e.classOf f with
+     | some .reset | some .entry | some .fresh => true
+     | _ => false)
 
 /-- every exported method starts with reset(), or touches the object only through other exported
     methods (no unexported calls, no writes) -/
@@ -298,6 +325,7 @@ structure G where
   acc : List (Option Nat) := []
   cbs : List Cb := []          -- callbacks so far, in order
   stopped : Bool := false      -- the consumer has returned false
+  wstopped : Bool := false     -- wrappedReader.stopped: the consumer returned false inside Read
   done : Bool := false         -- the StmtsSeq loop was left by `break`
   panic : Bool := false        -- yield was called after it had returned false (Go runtime panic)
   deriving DecidableEq, Repr
@@ -320,11 +348,11 @@ def readTail (stopAt : Option Nat) (g : G) (nl : Bool) (line openN lit : Nat) (e
   if nl && line > g.lastLine then
     if incomplete openN lit then
       let g' := g.yielded stopAt { stmts := g.acc, inc := true, err := err, fromRead := true, inStmt := inStmt }
-      -- `return 0, io.EOF` before lastLine is updated when the consumer stops
-      if g.yieldOk stopAt then { g' with lastLine := line } else g'
+      -- `w.stopped = true; return 0, io.EOF` before lastLine is updated when the consumer stops
+      if g.yieldOk stopAt then { g' with lastLine := line } else { g' with wstopped := true }
     else if g.acc.isEmpty then
       let g' := g.yielded stopAt { stmts := [], inc := false, err := err, fromRead := true, inStmt := inStmt }
-      if g.yieldOk stopAt then { g' with lastLine := line } else g'
+      if g.yieldOk stopAt then { g' with lastLine := line } else { g' with wstopped := true }
     else { g with lastLine := line }
   else g
 
@@ -332,22 +360,50 @@ def readTail (stopAt : Option Nat) (g : G) (nl : Bool) (line openN lit : Nat) (e
 def stmtTail (stopAt : Option Nat) (g : G) (err tokNewl : Bool) (line openN lit : Nat) : G :=
   if err then
     let g' := g.yielded stopAt { stmts := g.acc, inc := incomplete openN lit, err := true, fromRead := false, inStmt := false }
-    if g'.panic || g.yieldOk stopAt then g' else { g' with done := true }
+    -- `if !yield(…) { w.stopped = true; break }`
+    if g'.panic || g.yieldOk stopAt then g' else { g' with done := true, wstopped := true }
   else if tokNewl then
     let g' := g.yielded stopAt { stmts := g.acc, inc := incomplete openN lit, err := false, fromRead := false, inStmt := false }
     if g'.panic then g'
-    else if g.yieldOk stopAt then { g' with acc := [], lastLine := line + 1 } else { g' with done := true }
+    else if g.yieldOk stopAt then { g' with acc := [], lastLine := line + 1 } else { g' with done := true, wstopped := true }
   else g
 
 def step (stopAt : Option Nat) (g : G) : Ev → G
   | .read nl line openN lit err inStmt =>
     if g.done || g.panic then g else readTail stopAt g nl line openN lit err inStmt
   | .stmt id err tokNewl line openN lit =>
-    if g.done || g.panic then g else stmtTail stopAt { g with acc := g.acc ++ [id] } err tokNewl line openN lit
+    if g.done || g.panic then g
+    else if g.wstopped then { g with done := true }   -- `if w.stopped { break }`
+    else stmtTail stopAt { g with acc := g.acc ++ [id] } err tokNewl line openN lit
+
+def Ev.isRead : Ev → Bool
+  | .read .. => true
+  | .stmt .. => false
+
+/-- trace hypothesis A3 (a property of `Parser.fill`: a read error, here the io.EOF returned to a
+    stopping consumer, is sticky): once wrappedReader.Read has returned EOF because the consumer
+    stopped, the parser never calls Read again -/
+def noReadAfterStop (stopAt : Option Nat) : G → List Ev → Bool
+  | _, [] => true
+  | g, e :: r => (!(g.wstopped && !g.done && e.isRead)) && noReadAfterStop stopAt (step stopAt g e) r
 
 def runFrom (stopAt : Option Nat) (g : G) (tr : List Ev) : G := tr.foldl (step stopAt) g
 
 def run (stopAt : Option Nat) (tr : List Ev) : G := runFrom stopAt {} tr
+
+/-- after the loop: `if !w.stopped && p.err == nil && len(w.accumulated) > 0 { yield(w.accumulated, nil) }`
+    — the statements of a last line without a newline token are handed over at EOF.
+    `err`, `openN`, `lit`: the parser state when StmtsSeq has finished. -/
+def finish (stopAt : Option Nat) (g : G) (err : Bool) (openN lit : Nat) : G :=
+  if g.panic then g
+  else if !g.wstopped && !err && !g.acc.isEmpty then
+    { g.yielded stopAt { stmts := g.acc, inc := incomplete openN lit, err := false, fromRead := false, inStmt := false }
+      with done := true }
+  else { g with done := true }
+
+/-- the whole of InteractiveSeq over a trace and the final parser state -/
+def runAll (stopAt : Option Nat) (tr : List Ev) (err : Bool) (openN lit : Nat) : G :=
+  finish stopAt (run stopAt tr) err openN lit
 
 /-- the statements a client like gosh runs: those of the callbacks that are neither incomplete nor
     erroring -/
